@@ -73,6 +73,10 @@ class KrausChannel(raw_types.Gate):
             return False
         return np.allclose(np.asarray(self._kraus_ops), np.asarray(other._kraus_ops))
 
+    def __hash__(self) -> int:
+        # Equality compares the operators within a tolerance, so only exact attributes may enter the hash.
+        return hash((KrausChannel, self._key, self._num_qubits, len(self._kraus_ops)))
+
     def num_qubits(self) -> int:
         return self._num_qubits
 
